@@ -135,6 +135,25 @@ pub fn look(w: &str) -> Vec<String> {
             out.push(v.into_iter().collect());
         }
     }
+    // high-bit twins: two adjacent ASCII bytes replaced by the 2-byte character whose bytes are the same with bit 7 set
+    // (`p3` -> U+0433), and a 2-byte character replaced by its two bytes with bit 7 cleared (`é` -> `C)`): never a match
+    let bs = w.as_bytes();
+    for i in 0..bs.len().saturating_sub(1) {
+        if bs[i] < 0x80 && bs[i + 1] < 0x80 && w.is_char_boundary(i) && w.is_char_boundary(i + 2) {
+            let pair = [bs[i] | 0x80, bs[i + 1] | 0x80];
+            if let Ok(t) = std::str::from_utf8(&pair) {
+                out.push(format!("{}{}{}", &w[..i], t, &w[i + 2..]));
+            }
+        }
+    }
+    for (i, c) in w.char_indices() {
+        if c.len_utf8() == 2 {
+            let low: Vec<u8> = w.as_bytes()[i..i + 2].iter().map(|b| b & 0x7f).collect();
+            if let Ok(t) = std::str::from_utf8(&low) {
+                out.push(format!("{}{}{}", &w[..i], t, &w[i + 2..]));
+            }
+        }
+    }
     // sharp s for "ss"/"SS"
     let lower = w.to_lowercase();
     if let Some(p) = lower.find("ss") {
